@@ -78,6 +78,11 @@ maybe_abandon() {
     return;
   }
 #endif
+#ifdef PPL_VERIF
+  if (verif_abandon_hook != nullptr) {
+    verif_abandon_hook();
+  }
+#endif
   if (Weightwatch_Traits::check_function != nullptr) {
     Weightwatch_Traits::check_function();
   }
